@@ -44,10 +44,12 @@ Fixpoint prefix_from (m : smap) (fuel : nat) (i : N) : bytes :=
 
 Definition seq_offset (isn seq : N) : N := (seq + two32 - (isn + 1)) mod two32.
 
-Record sdir := mkDir { d_isn : option N; d_map : smap; d_recv : nat; d_done : bool }.
+(* d_segs: the data segments received so far as (stream offset, payload), in arrival order; it does not
+   influence what is reported, it only serves the classification of events below *)
+Record sdir := mkDir { d_isn : option N; d_map : smap; d_recv : nat; d_done : bool; d_segs : list (N * bytes) }.
 Record sconn := mkConn { sc_id : N; sc_c : sdir; sc_s : sdir }.
 
-Definition dir_new (isn : option N) : sdir := mkDir isn smap_empty 0 false.
+Definition dir_new (isn : option N) : sdir := mkDir isn smap_empty 0 false [].
 Definition stream_prefix (d : sdir) : bytes := prefix_from (d_map d) (d_recv d) 0.
 
 Fixpoint conn_lookup (id : N) (cs : list sconn) : option sconn :=
@@ -60,6 +62,25 @@ Fixpoint conn_replace (c : sconn) (cs : list sconn) : list sconn :=
   | [] => []
   | c' :: r => if sc_id c' =? sc_id c then c :: r else c' :: conn_replace c r
   end.
+
+(* all received payloads in offset order, holes squeezed out (what a reassembler that sorts and
+   concatenates without a contiguity check would hand to the parser) *)
+Fixpoint seg_insert (x : N * bytes) (l : list (N * bytes)) : list (N * bytes) :=
+  match l with
+  | [] => [x]
+  | y :: r => if fst x <? fst y then x :: y :: r else y :: seg_insert x r
+  end.
+Definition seg_sort (l : list (N * bytes)) : list (N * bytes) := fold_right seg_insert [] l.
+Definition squeezed (l : list (N * bytes)) : bytes := concat (map snd (seg_sort l)).
+(* do the segments occupy pairwise disjoint offset ranges? *)
+Definition seg_disj_b (x y : N * bytes) : bool :=
+  (fst x + N.of_nat (length (snd x)) <=? fst y) || (fst y + N.of_nat (length (snd y)) <=? fst x).
+Fixpoint segs_disjoint_b (l : list (N * bytes)) : bool :=
+  match l with
+  | [] => true
+  | x :: r => forallb (seg_disj_b x) r && segs_disjoint_b r
+  end.
+Definition opt_some {A} (o : option A) : bool := match o with Some _ => true | None => false end.
 
 Definition is_nil {A} (l : list A) : bool := match l with [] => true | _ => false end.
 Definition is_some_b (o : option byte) : bool := match o with Some _ => true | None => false end.
@@ -81,9 +102,10 @@ Section Spec.
     else
       let m := place (d_map d) (seq_offset isn seq) pay in
       let n := (d_recv d + length pay)%nat in
+      let sg := d_segs d ++ [(seq_offset isn seq, pay)] in
       match parse (prefix_from m n 0) with
-      | Some r => (mkDir (d_isn d) m n true, Some r)
-      | None => (mkDir (d_isn d) m n false, None)
+      | Some r => (mkDir (d_isn d) m n true sg, Some r)
+      | None => (mkDir (d_isn d) m n false sg, None)
       end.
 
   (* new state, report, and whether the event keeps the trace inside the specification's domain *)
@@ -97,7 +119,7 @@ Section Spec.
         if e_syn e then
           match e_client e, d_isn (sc_s c), e_pay e with
           | false, None, [] =>
-              (conn_replace (mkConn (sc_id c) (sc_c c) (mkDir (Some (e_seq e)) (d_map (sc_s c)) (d_recv (sc_s c)) (d_done (sc_s c)))) cs,
+              (conn_replace (mkConn (sc_id c) (sc_c c) (mkDir (Some (e_seq e)) (d_map (sc_s c)) (d_recv (sc_s c)) (d_done (sc_s c)) (d_segs (sc_s c)))) cs,
                ONone, true)
           | _, _, _ => (cs, ONone, false)
           end
@@ -140,8 +162,18 @@ Section Spec.
   Definition spec_outs (tr : list event) : list (hout Req Resp) := fst (srun [] tr).
   Definition spec_wf (tr : list event) : bool := snd (srun [] tr).
 
+  Definition both_done (id : N) (cs : list sconn) : bool :=
+    match conn_lookup id cs with
+    | Some c => d_done (sc_c c) && d_done (sc_s c)
+    | None => false
+    end.
+
+
   (* ------------------------------------------------------------------------------------------
-     Classes of events on which the unchanged code deviates (DESIGN.md section 5 #14, and the
+     STRICT classes (hypothesis of C09_inorder, which needs no assumption on the parsers): any
+     arrival that is not the next in-order segment is flagged.  The known-defect classes proper
+     follow below.
+     Classes of events on which the unchanged code may deviate (DESIGN.md section 5 #14, and the
      client half-close found while building this check).  Each is a predicate on the event and the
      specification state BEFORE the event.
        wrap : a data segment of a not yet reported direction whose raw sequence number is not above
@@ -151,18 +183,67 @@ Section Spec.
        fin  : a client data segment with FIN or RST after which request and response are not both
               reported
      ------------------------------------------------------------------------------------------ *)
-  Definition classify_dir (d : sdir) (isn seq : N) (pay : bytes) : bool * bool * bool :=
+  Definition classify_dir_strict (d : sdir) (isn seq : N) (pay : bytes) : bool * bool * bool :=
     if d_done d then (false, false, false)
     else
       let off := seq_offset isn seq in
       let cur := N.of_nat (length (stream_prefix d)) in
       (seq <=? isn, cur <? off, any_placed (d_map d) off (length pay)).
 
-  Definition both_done (id : N) (cs : list sconn) : bool :=
-    match conn_lookup id cs with
-    | Some c => d_done (sc_c c) && d_done (sc_s c)
-    | None => false
+  (* (wrap, gap, dup, fin) of one event; cs = state before, cs1 = state after *)
+  Definition classify_strict (cs : list sconn) (e : event) (cs1 : list sconn) : bool * bool * bool * bool :=
+    match conn_lookup (e_conn e) cs, e_pay e with
+    | Some c, _ :: _ =>
+        if e_syn e then (false, false, false, false)
+        else
+          let d := if e_client e then sc_c c else sc_s c in
+          match d_isn d with
+          | None => (false, false, false, false)
+          | Some isn =>
+              let '(w, g, u) := classify_dir_strict d isn (e_seq e) (e_pay e) in
+              (w, g, u, e_client e && (e_fin e || e_rst e) && negb (both_done (e_conn e) cs1))
+          end
+    | _, _ => (false, false, false, false)
     end.
+
+  Fixpoint krun_strict (cs : list sconn) (tr : list event) : bool * bool * bool * bool :=
+    match tr with
+    | [] => (false, false, false, false)
+    | e :: r => let '(cs1, _, _) := sstep cs e in
+                let '(w, g, u, f) := classify_strict cs e cs1 in
+                let '(w2, g2, u2, f2) := krun_strict cs1 r in
+                (w || w2, g || g2, u || u2, f || f2)
+    end.
+  Definition strict_classes (tr : list event) : bool * bool * bool * bool := krun_strict [] tr.
+  Definition known_strict (tr : list event) : bool :=
+    let '(w, g, u, f) := strict_classes tr in w || g || u || f.
+
+  (* ------------------------------------------------------------------------------------------
+     KNOWN-DEFECT classes (DESIGN.md section 5 #14, and the client half-close found while building
+     this check): the events on which the unchanged code deviates.  Each is a predicate on the
+     event and the specification state before the event.
+       wrap : a data segment of a not yet reported direction whose raw sequence number is not above
+              that direction's ISN (the sequence space wrapped between the SYN and this segment)
+       gap  : ... after which the received segments are pairwise disjoint, a hole is open (the
+              gap-free prefix is shorter than the bytes received) AND the received bytes, sorted by
+              offset and concatenated across the hole, are accepted by the head parser -- a head
+              assembled from non-contiguous segments.
+              An out-of-order arrival whose squeezed bytes do not parse is NOT in this class.
+       dup  : ... that carries a byte already received (retransmission / overlap)
+       fin  : a client data segment with FIN or RST after which request and response are not both
+              reported
+     ------------------------------------------------------------------------------------------ *)
+  Definition classify_dir {R} (parse : bytes -> option R) (d : sdir) (isn seq : N) (pay : bytes) : bool * bool * bool :=
+    if d_done d then (false, false, false)
+    else
+      let off := seq_offset isn seq in
+      let m := place (d_map d) off pay in
+      let n := (d_recv d + length pay)%nat in
+      let sg := d_segs d ++ [(off, pay)] in
+      let hole := N.of_nat (length (prefix_from m n 0)) <? N.of_nat n in
+      (seq <=? isn,
+       segs_disjoint_b sg && hole && opt_some (parse (squeezed sg)),
+       any_placed (d_map d) off (length pay)).
 
   (* (wrap, gap, dup, fin) of one event; cs = state before, cs1 = state after *)
   Definition classify (cs : list sconn) (e : event) (cs1 : list sconn) : bool * bool * bool * bool :=
@@ -174,7 +255,8 @@ Section Spec.
           match d_isn d with
           | None => (false, false, false, false)
           | Some isn =>
-              let '(w, g, u) := classify_dir d isn (e_seq e) (e_pay e) in
+              let '(w, g, u) := if e_client e then classify_dir parse_req d isn (e_seq e) (e_pay e)
+                                else classify_dir parse_resp d isn (e_seq e) (e_pay e) in
               (w, g, u, e_client e && (e_fin e || e_rst e) && negb (both_done (e_conn e) cs1))
           end
     | _, _ => (false, false, false, false)
